@@ -208,8 +208,14 @@ def check(ctx):
     if not quick:
         for n, s in cgen.decl_units("CPP"):
             progs.append(("declpp-" + n, "CPP", s))
+    progs.append(("wrapped-params", "CPP", b"int process_block(int first, const char *second,\n    unsigned long third_value, bool flag);\n"
+                                            b"void g(int a,\n       int b, int c)\n{\n    int r = a +\n            b + c;\n    process_block(r, \"x\",\n                  3, true);\n}\n"))
+    from . import c06
+    sinks = c06.sink_profiles(bee.reg())
     sortinc = dict(P["ben"]); sortinc.update({"mod_sort_include": "true", "mod_sort_import": "true", "mod_sort_using": "true", "align_right_cmt_span": "3"})
-    profs = [("defaults", {}), ("ben+sort", sortinc)] + ([] if quick else [(n, P[n]) for n in ("linux", "gnu-indent", "msvc", "sun")])
+    # kitchen-sink profiles switch (nearly) every pass on, so that a pass whose behaviour depends on an observer has a chance to run
+    profs = [("defaults", {}), ("ben+sort", sortinc), ("sink-force-true", sinks["sink-force-true"]), ("sink-add-false-num1", sinks["sink-add-false-num1"])] \
+        + ([] if quick else [(n, P[n]) for n in ("linux", "gnu-indent", "msvc", "sun")])
     jobs = [(n, l, s, pn, st, quick) for (n, l, s) in progs for pn, st in profs]
     ctx.log("jobs: %d (programs %d x profiles %d)" % (len(jobs), len(progs), len(profs)))
     agg = {"runs": 0, "nontrivial": 0, "cases": 0}
